@@ -117,6 +117,42 @@ def _shard(job):
     return stats, viols, samples, [repr(s) for s in states]
 
 
+def bare_part():
+    """Bare `PyTree` accepts EVERYTHING (it is a suggestively named Any) - also values that jax
+    cannot flatten: dicts whose keys cannot be ordered, objects, classes, exceptions."""
+    common.bind_repo()
+    import enum
+
+    from jaxtyping import PyTree, jaxtyped
+    from .. import adapter
+
+    class Color(enum.Enum):
+        R = 1
+        G = 2
+
+    vals = {
+        "dict-mixed-keys": {1: 1, "a": 2},
+        "dict-none-key": {None: 1, "a": 2},
+        "dict-enum-keys": {Color.R: 1, Color.G: 2},
+        "nested-mixed": ([{1: 1, "a": 2}], 3),
+        "object": object(),
+        "class": dict,
+        "exception": ValueError("x"),
+        "complex-keys": {1j: 1, 2j: 2},
+    }
+    viols, n = [], 0
+    for name, v in vals.items():
+        for where in ("bare", "context"):
+            n += 1
+            if where == "bare":
+                got = adapter.check(v, PyTree)
+            else:
+                got = adapter.in_context(lambda: adapter.check(v, PyTree))
+            if got is not True:
+                viols.append(Violation(key=f"C08:bare-pytree:{name}", what=f"isinstance({name}, PyTree) [{where}] answered {got!r}; bare PyTree accepts everything", replay=dict(kind="bare", name=name)).to_json())
+    return n, viols
+
+
 def run(ctx):
     work = []
     for lname, (L, leaves) in LEAFTYPES.items():
@@ -128,6 +164,9 @@ def run(ctx):
     outs = common.pmap(_shard, jobs)
     stats = common.merge_counts(o[0] for o in outs)
     viols = [Violation(**v) for o in outs for v in o[1]]
+    bn, bv = bare_part()
+    viols += [Violation(**v) for v in bv]
+    stats["transitions"] += bn
     samples = [s for o in outs for s in o[2]][:4]
     states = set(s for o in outs for s in o[3])
     ntrees = {ln: len(tree_family(lv, ctx.tier)) for ln, (L, lv) in LEAFTYPES.items()}
@@ -152,6 +191,10 @@ def run(ctx):
 
 
 def replay(rep):
+    if rep.get("kind") == "bare":
+        n, v = bare_part()
+        mine = [x for x in v if x["replay"]["name"] == rep["name"]]
+        return dict(violations=[x["what"] for x in mine], violates=bool(mine))
     common.bind_repo()
     from .. import adapter, specs
     from ..refs import leaftypes as rl
